@@ -8,6 +8,7 @@ import (
 	"os/exec"
 	"path/filepath"
 	"sync"
+	"time"
 
 	hclog "github.com/hashicorp/go-hclog"
 	"github.com/hashicorp/go-plugin/runner"
@@ -20,9 +21,10 @@ import (
 // plugin failure domain of the current execution: stdout/stderr are OS-pipe
 // models, Wait returns when the process has exited, Kill makes it exit.
 type scriptRunner struct {
-	x      *vs.Exec
-	dom    *vs.Domain
-	script func(r *scriptRunner)
+	startDelay time.Duration // Start returns (successfully) only after this long
+	x          *vs.Exec
+	dom        *vs.Domain
+	script     func(r *scriptRunner)
 
 	stdoutR, stderrR io.ReadCloser
 	stdout, stderr   io.WriteCloser
@@ -72,9 +74,15 @@ func (r *scriptRunner) Start(ctx context.Context) error {
 	r.mu.Lock()
 	r.starts++
 	err := r.startErr
+	delay := r.startDelay
 	r.mu.Unlock()
 	if err != nil {
 		return err
+	}
+	if delay > 0 {
+		// a runner whose launch takes its time and does not watch the context (like the built-in command runner,
+		// whose launch is a fork/exec that cannot be interrupted)
+		r.x.Pause(delay)
 	}
 	// a real plugin binds its socket inside the directory the runner was given (PLUGIN_UNIX_SOCKET_DIR); if
 	// the process is killed that file stays behind, a graceful exit unlinks it (script returned normally)
